@@ -110,7 +110,7 @@ class Prior():
             If dimensionality of `points` does not match the prior.
 
         """
-        phys_points = np.zeros_like(points)
+        phys_points = np.zeros_like(points, dtype=float)
 
         try:
             assert self.dimensionality() == points.shape[-1]
